@@ -30,6 +30,7 @@ pub fn run(args: &[String]) {
         Some("deep-chain") => deep_chain_cmd(args),
         Some("vf2-probe") => vf2_probe_cmd(),
         Some("multmark") => multmark_cmd(),
+        Some("kerx-probe") => kerx_probe_cmd(),
         _ => {
             eprintln!("c07 cases|font|one|kernoff-corpus|deep-chain");
             std::process::exit(2)
@@ -1760,4 +1761,73 @@ fn multmark_cmd() {
         }
     }
     println!("multmark-summary cases={} attached_marks={} bad={}", cases, attached, bad);
+}
+
+/// Which table positions the text when a font has both kerx and GPOS: kerx unless the font has GSUB and GPOS (then
+/// GPOS); with kerning switched off, neither.  Four fonts (with / without an empty GSUB) x kerning on / off; the kerx
+/// table is written byte by byte (one format-0 pair), the amounts are split as for every pair kerning (k >> 1 on the first
+/// glyph, the rest on the second glyph's advance and offset).
+fn kerx_probe_cmd() {
+    let kerx = |k: i16| -> Vec<u8> {
+        let mut v: Vec<u8> = Vec::new();
+        v.extend_from_slice(&2u16.to_be_bytes());
+        v.extend_from_slice(&0u16.to_be_bytes());
+        v.extend_from_slice(&1u32.to_be_bytes());
+        v.extend_from_slice(&(12u32 + 16 + 6).to_be_bytes());
+        v.push(0);
+        v.extend_from_slice(&0u16.to_be_bytes());
+        v.push(0);
+        v.extend_from_slice(&0u32.to_be_bytes());
+        for x in [1u32, 6, 0, 0] {
+            v.extend_from_slice(&x.to_be_bytes());
+        }
+        v.extend_from_slice(&1u16.to_be_bytes());
+        v.extend_from_slice(&2u16.to_be_bytes());
+        v.extend_from_slice(&k.to_be_bytes());
+        v
+    };
+    let (kx, gp) = (-101i16, -300i16);
+    let mut bad = 0;
+    let mut n = 0;
+    for with_gsub in [false, true] {
+        let mut spec = FontSpec::basic(4);
+        spec.hadv = vec![500, 1000, 1000, 1000];
+        // a GDEF that classifies .notdef only: the letters stay unclassified, the kerning machine never skips them
+        spec.gdef = Some(Gdef { glyph_classes: vec![(0, 1)], mark_attach_classes: vec![], mark_glyph_sets: vec![] });
+        spec.gpos = Some(Layout::single_feature(*b"kern", vec![Lookup::one(PosSubtable::Pair1 { coverage: Coverage::Glyphs(vec![1]), pair_sets: vec![vec![(2, ValueRecord::xadv(gp), ValueRecord::default())]], vf: ValueFormat::NonZero })]));
+        if with_gsub {
+            spec.gsub = Some(Layout::single_feature(*b"liga", vec![Lookup::one(SubstSubtable::Single2 { coverage: Coverage::Glyphs(vec![3]), substitutes: vec![3] })]));
+        }
+        spec.raw_tables = vec![(*b"kerx", kerx(kx))];
+        let data = build(&spec);
+        for kerning in [true, false] {
+            let req = Req { text: vec![(pua(0), 0), (pua(1), 1), (pua(0), 2)], dir: Some(Direction::LeftToRight), script: Some("Latn".to_string()), flags: 3, features: if kerning { vec![] } else { vec!["-kern".to_string()] }, ..Default::default() };
+            let want: Vec<(i32, i32)> = if !kerning {
+                vec![(1000, 0), (1000, 0), (1000, 0)]
+            } else if with_gsub {
+                vec![(1000 + gp as i32, 0), (1000, 0), (1000, 0)]
+            } else {
+                let k1 = (kx as i32) >> 1;
+                let k2 = kx as i32 - k1;
+                vec![(1000 + k1, 0), (1000 + k2, k2), (1000, 0)]
+            };
+            let d2 = data.clone();
+            let rq = req.clone();
+            n += 1;
+            match catch(move || { let f = rustybuzz::Face::from_slice(&d2, 0).unwrap(); crate::shp::shape_req(&f, &rq) }) {
+                Ok(o) => {
+                    let got: Vec<(i32, i32)> = o.iter().map(|g| (g.xa, g.xo)).collect();
+                    if got != want {
+                        bad += 1;
+                        println!("kerx-probe-fail with_gsub={} kerning={} want={:?} got={:?}", with_gsub, kerning, want, got);
+                    }
+                }
+                Err(e) => {
+                    bad += 1;
+                    println!("kerx-probe-fail with_gsub={} kerning={} panic {}", with_gsub, kerning, e);
+                }
+            }
+        }
+    }
+    println!("kerx-probe-summary cases={} bad={}", n, bad);
 }
